@@ -209,13 +209,13 @@ class Ctx:
 
         def events(node: Node):
             out = []
-            for frag in own_fragments(node):
+            for frag in (own_fragments(node) or [None]):
                 for name, pats in comp:
                     for p in pats:
                         if callable(p) and not hasattr(p, "match"):
                             if p(frag, node):
                                 out.append((getattr(frag, "lineno", 0), getattr(frag, "col_offset", 0), name))
-                        else:
+                        elif frag is not None:
                             for m, b in find_all(p, frag, own=True, env=env):
                                 out.append((getattr(m, "lineno", 0), getattr(m, "col_offset", 0), name))
             out.sort()
